@@ -36,6 +36,7 @@ type c02Opts struct {
 	LangMarshal                          bool // generate_json_marshaller of python / java / php
 	LangSkipRuntime                      bool // skip_runtime of python / java / typescript
 	Langs                                []string
+	VeneersDir                           string // directory with builder veneer files (*.yaml); "" = none
 }
 
 var c02AllLangs = []string{"go", "python", "java", "typescript", "php", "jsonschema", "openapi"}
@@ -119,6 +120,9 @@ func c02Pipeline(format, path, pkg string, ir ast.Schemas, o c02Opts, scratch st
 		p.Transforms.CommonPasses = compiler.Passes{}
 	}
 	p.Inputs = []*codegen.Input{in}
+	if o.VeneersDir != "" {
+		p.Transforms.VeneersDirectories = []string{o.VeneersDir}
+	}
 	p.Output.Directory = "%l"
 	p.Output.Types, p.Output.Builders, p.Output.Converters, p.Output.APIReference = o.Types, o.Builders, o.Converters, o.APIRef
 	langs := o.Langs
